@@ -128,6 +128,18 @@ def rule_bc(ctx, R):
     ctx.ob("C12-c", "Err of inverse_gamma_lr never reaches Ok(sample)", ok, fn, "quantile-err-discipline", where=pat.where(t), detail=why)
 
 
+def f64_routines(ctx, R, q):
+    """Role quantile_f64: the non-trait local callee of the wrapper that computes the value — it returns f64 (a predicate or logging
+    helper the wrapper also calls does not)."""
+    cands = [cb for bi, t, cb in R.local_callees(q) if not t["callee"].get("trait")]
+    vals = [cb for cb in cands if cb.local_ty(0) == "f64"]
+    uniq = []
+    for cb in (vals or cands):
+        if all(cb is not x for x in uniq):
+            uniq.append(cb)
+    return uniq
+
+
 def rule_d(ctx, R):
     """Never panics: statrs' incomplete-gamma functions panic for x <= 0; every call must be reached only with x > 0 (or NaN)."""
     from ..f64facts import NEG, ZERO, NINF
@@ -137,7 +149,7 @@ def rule_d(ctx, R):
         q = R.quantile()
     except RoleLost as e:
         return ctx.lost("C12-d", str(e))
-    impls = [cb for bi, t, cb in R.local_callees(q) if not t["callee"].get("trait")]
+    impls = f64_routines(ctx, R, q)
     if len(impls) != 1:
         return ctx.lost("C12-d", "the f64 quantile routine (callee of inverse_gamma_lr)", q.path)
     body = impls[0]
@@ -405,7 +417,7 @@ def rule_f(ctx, R):
         q = R.quantile()
     except RoleLost as e:
         return ctx.lost("C12-f", str(e))
-    impls = [cb for bi, t, cb in R.local_callees(q) if not t["callee"].get("trait")]
+    impls = f64_routines(ctx, R, q)
     if len(impls) != 1:
         return ctx.lost("C12-f", "the f64 quantile routine (callee of inverse_gamma_lr)", q.path)
     body = impls[0]
